@@ -351,6 +351,16 @@ def run(ctx):
             dspec = {"file_sr": 1017, "te": 1.0, "channels": 2, "n_frames": 515, "seed": 4242, "kind": "spectrogram", "window": 1024 / 1017, "hop": hop_frac * 1024 / 1017}
             ctx.case(("spectrogram", "directed", "window_longer_than_signal"), dspec)
             judge_spectrogram(ctx, dwav, dspec["window"], dspec["hop"], dspec)
+    # directed: one read of more than 2**22 frames (11 s at 384 kHz; a minute and a half at 44.1 kHz) -- whole recording,
+    # whole-recording clip, and a clip from the middle to past the end of the file
+    if ctx.shard == 0:
+        big = {"file_sr": 384000, "te": 1.0, "channels": rng.choice([1, 2]), "n_frames": 2 ** 22 + 4097 + rng.randrange(0, 5000), "seed": len(CONTAINERS) * rng.randint(1, 50)}
+        ctx.case(("recording", "directed", "more_than_2**22_frames"), dict(big, kind="recording"))
+        judge_recording(ctx, big["file_sr"], 1.0, big["channels"], big["n_frames"], big["seed"])
+        tot = big["n_frames"] / big["file_sr"]
+        for st, en in ((0.0, tot), (tot * 0.01, tot + 0.75), (tot * 0.4, tot * 0.9)):
+            ctx.case(("clip", "directed", "more_than_2**22_frames"), dict(big, kind="clip", start=st, end=en))
+            judge_clip(ctx, big["file_sr"], 1.0, big["channels"], big["n_frames"], big["seed"], st, en)
     n_files = ctx.scale(22, 14)        # per shard; the thorough tier has 10 shards and a depth multiplier
     for fi in range(n_files):
         if fi < len(FILE_SRS):
